@@ -558,7 +558,8 @@ def run_conc(run, programs, obl_name, monitor=False, timeout=300, known_keys=(),
     """programs: list of thread-op strings, e.g. ['CM','QM']; every placement of B in A is its own cube"""
     from .framework import parallel_map, run_native
     base = base or {}
-    cubes = expand_placements([dict(base, threads=list(p)) for p in programs])
+    # two concurrent sweeps: one maker visit each (end-to-end equalities over two multi-iteration sweeps do not finish)
+    cubes = expand_placements([dict(base, threads=list(p), **({'match_unwind': 1} if p.count('M') >= 2 else {})) for p in programs])
     results = parallel_map([(_solve_for_pool, (cb, obl_name, monitor, timeout)) for cb in cubes])
     candidates = []
     nwit = 0
